@@ -31,4 +31,33 @@ func vFourP(i int) uint64 {
 }
 
 func vSwap(a, b *Bignum25519, flag uint64) { SwapConditional(a, b, flag) }
-const vMulExtra = 3
+
+// class limits of the 5x51 layout, in units of 1/64 of the nominal limb size (limb_i <= s * 2^bits(i) / 64);
+// the group-law harnesses (C09/C10/C16) check every call site against exactly these numbers
+const (
+	vSAddIn     = 512 // Add, AddAfterBasic, AddReduce: each operand
+	vSSubA      = 512 // minuend of Sub, SubAfterBasic, SubReduce
+	vSSubB      = 127 // subtrahend of Sub, Neg operand   (<= 2p limb-wise)
+	vSSubBAfter = 255 // subtrahend of SubAfterBasic, SubReduce (<= 4p limb-wise)
+	vSMulIn     = 512 // Mul operands (limbs <= 2^54)
+	vSSquareIn  = 512 // Square / SquareTimes operand
+	vSContract  = 256 // Contract operand
+	vSReduced   = 65  // output of the carrying operations
+	vSSubOut    = 128 // Sub: out <= a + 128
+	vSSubAfterOut = 256 // SubAfterBasic: out <= a + 256 (64-bit layout does not carry)
+	vAddAfterCarries = false
+)
+
+// operand class pairs (first argument, second argument) for which Mul is proved on this layout
+var vMulPairs = [][2][vNLimbs]int{
+	{{512, 512, 512, 512, 512}, {512, 512, 512, 512, 512}},
+}
+
+// Sub does not carry on this layout: out_i <= a_i + 2p_i
+func vSubOutOK(out, a *Bignum25519) bool {
+	ok := true
+	for i := 0; i < vNLimbs; i++ {
+		ok = ok && out[i] <= a[i]+vTwoP(i)
+	}
+	return ok
+}
